@@ -1,6 +1,7 @@
 import SC.Model.Algo
 import SC.Model.Std
 import SC.Gen.Consts
+import SC.Gen.AsmFacts
 /-!
 Line-protocol driver: one op per line on stdin, one answer per line on stdout.
 
@@ -178,6 +179,41 @@ def runM (fn : String) (cfg : A.Cfg) (args : List String) : String :=
   | "LastIndexByte" => toString (Std.lastIndexByte a1 c2)
   | _ => "-"
 
+/-- `asm <body> <avx2 0|1> <page offset> <poison byte> <data hex> <needle> [<observed>]`: run the instruction-level model of a
+    kernel body (regenerated program, `Asm.run`) from its first instruction on the given bytes placed at the given offset
+    within a page, every other byte of memory being `poison`; registers and lanes not set by the calling convention hold
+    junk.  Answer: `<stored result>\t<1 if every load stays within pages holding argument bytes>\t<number of loads>`. -/
+def runAsm (args : List String) : String :=
+  match args with
+  | body :: avx :: off :: poison :: hex :: needle :: _ =>
+    let prog? : Option Asm.Prog := match body with
+      | "indexbytebody" => some Gen.Asm.body_indexbytebody
+      | "indexbytebodyCase" => some Gen.Asm.body_indexbytebodyCase
+      | "indexByteBodyNonASCII" => some Gen.Asm.body_indexByteBodyNonASCII
+      | "countbody" => some Gen.Asm.body_countbody
+      | "countbodyCase" => some Gen.Asm.body_countbodyCase
+      | _ => none
+    match prog? with
+    | none => "bad-body\t0\t0"
+    | some prog =>
+      let data := (parseHex hex).toArray
+      let len := data.size
+      let base := 0x100000 + off.toNat!
+      let pz := UInt8.ofNat poison.toNat!
+      let c := needle.toNat!
+      let st : Asm.St :=
+        { r := fun q => match q with
+            | .SI => base | .BX => len | .AX => 0xABCD00 + c % 256 | _ => 0xDEADBEEF12345
+          x := fun _ _ => 0xEE, y := fun _ _ => 0xEE, zf := true, cf := true, lt := true, avx2 := avx == "1"
+          mem := fun i => if base ≤ i ∧ i < base + len then data[i - base]! else pz
+          loads := [], out := none }
+      let fin := Asm.run prog (15 * (len + 1) + 80) (Asm.block prog "entry") st
+      let safe := fin.loads.all (fun ld =>
+        decide (0 < len) && decide (0 < ld.2) && decide (base / 4096 ≤ ld.1 / 4096) && decide ((ld.1 + ld.2 - 1) / 4096 ≤ (base + len - 1) / 4096))
+      let o := match fin.out with | some v => toString v | none => "none"
+      o ++ "\t" ++ fmtBool safe ++ "\t" ++ toString fin.loads.length
+  | _ => "bad-op\t0\t0"
+
 partial def loop (h : IO.FS.Stream) (out : IO.FS.Stream) : IO Unit := do
   let line ← h.getLine
   if line.isEmpty then
@@ -186,6 +222,7 @@ partial def loop (h : IO.FS.Stream) (out : IO.FS.Stream) : IO Unit := do
   let toks := (line.trimAscii.toString.splitOn " ").filter (· ≠ "")
   match toks with
   | "flush" :: _ => out.flush
+  | "asm" :: args => out.putStrLn (runAsm args)
   | fn :: cfg :: args =>
     let (a, s) := run fn (mkCfg cfg) args
     out.putStrLn (a ++ "\t" ++ s ++ "\t" ++ runM fn (mkCfg cfg) args)
